@@ -1053,7 +1053,7 @@ class TriangularFactoredDefiniteMatrix(
         inv_factor_vector = self.factor.inv @ vector
         inv_vector = self.inv @ vector
         return _make_array_triangular(
-            -2 * self.sign * np.outer(inv_vector, inv_factor_vector),
+            -2 * np.outer(inv_vector, inv_factor_vector),
             lower=self.factor.lower,
         )
 
